@@ -282,7 +282,7 @@ def evalCall1 (ρ : Store) (f : String) (a : V) : R :=
 
 def fieldKey (a : E) (f : String) : Option String :=
   match a with
-  | .var n => some (n ++ "." ++ f)
+  | .var n => if n == "env" then none else some (n ++ "." ++ f)   -- `env` is a run-time value
   | _ => none
 
 /-- compile-time getters whose result is supplied by the dispatch model through the store -/
